@@ -1,38 +1,947 @@
+// Check C11 — "Binding is all-or-nothing under any API failure or crash point".
+//
+// Engine E3 (kit/bindersim): the real BindRequestReconciler, binding.Binder, resource-reservation
+// service and binder plugins (k8s-plugins wrapper with the DRA plugin, gpusharing) over an
+// interceptable API store. For every generated input the fault-free reconcile is traced and then
+// every client call k is failed (error-at-k), crashed (fail-stop-at-k) or, for watches, muted; pairs
+// (first fault, later fault) are enumerated exhaustively when there are at most maxPairs of them.
 package c11
 
 import (
+	"context"
+	"encoding/json"
 	"fmt"
+	"sort"
+	"strings"
 	"testing"
 
-	"sigs.k8s.io/controller-runtime/pkg/client"
+	v1 "k8s.io/api/core/v1"
+	resourceapi "k8s.io/api/resource/v1"
+	metav1 "k8s.io/apimachinery/pkg/apis/meta/v1"
 	"k8s.io/apimachinery/pkg/runtime"
+	"k8s.io/apimachinery/pkg/types"
+	"pgregory.net/rapid"
+	"sigs.k8s.io/controller-runtime/pkg/client"
 
+	"github.com/NVIDIA/KAI-scheduler/pkg/common/constants"
 	sim "github.com/NVIDIA/KAI-scheduler/zz_verif/bindersim"
 	kit "github.com/NVIDIA/KAI-scheduler/zz_verif/verifkit"
 )
 
+const prop = "C11"
+const maxPairs = 400
+
 func TestMain(m *testing.M) { kit.Main(m) }
 
-func TestCheckSmoke(t *testing.T) {
-	for _, kind := range []string{"whole", "fraction", "multi"} {
-		ps := sim.PodShape{Name: "p", NS: "ns", Kind: kind, Fraction: "0.5", Devices: 2, Containers: 2, Claims: 1}
-		rs := sim.ReqShape{Node: "n0", Portion: "0.5"}
-		if ps.Sharing() {
-			rs.Groups = []string{"g1"}
-			if ps.Multi() {
-				rs.Groups = []string{"g1", "g2"}
+// ---------------------------------------------------------------------------------------------
+// case
+
+// Pre is the state of the store before the reconcile, beyond pod + request + nodes.
+type Pre struct {
+	GroupExists []bool `json:"groupExists,omitempty"` // per selected group: a reservation pod and a running consumer exist
+	ConfigMaps  string `json:"configMaps,omitempty"`  // "" | both | capOnly | foreign | stale
+	Labelled    string `json:"labelled,omitempty"`    // "" | same (labels of this request from an earlier attempt) | stale (labels of another group)
+	Bound       string `json:"bound,omitempty"`       // "" | this | other
+	OtherGroups int    `json:"otherGroups,omitempty"` // unrelated healthy groups on the selected node
+	Orphan      bool   `json:"orphan,omitempty"`      // an unrelated reservation pod without consumer on the selected node
+	ClaimShared bool   `json:"claimShared,omitempty"` // DRA: claims are already allocated and reserved for another pod
+}
+
+type Case struct {
+	Pod         sim.PodShape `json:"pod"`
+	Req         sim.ReqShape `json:"req"`
+	Pre         Pre          `json:"pre"`
+	CDI         bool         `json:"cdi,omitempty"`
+	IndexPolicy string       `json:"indexPolicy,omitempty"`
+	Faults      []sim.Fault  `json:"faults,omitempty"` // the faulted reconcile's plan (empty: fault-free)
+}
+
+const (
+	node0 = "n0"
+	node1 = "n1"
+)
+
+func otherGroup(i int) string { return fmt.Sprintf("og%d", i) }
+
+// world renders the case into API objects.
+func (c *Case) world() ([]client.Object, []runtime.Object) {
+	var objs []client.Object
+	var kube []runtime.Object
+	objs = append(objs, sim.BuildNode(node0), sim.BuildNode(node1))
+	pod := sim.BuildPod(c.Pod)
+	switch c.Pre.Bound {
+	case "this":
+		pod.Spec.NodeName = c.Req.Node
+	case "other":
+		pod.Spec.NodeName = node1
+	}
+	usedIdx := 2
+	mkConsumer := func(name, group string, multi bool) *v1.Pod {
+		ps := sim.PodShape{Name: name, NS: "other", Kind: "fraction", Fraction: "0.25", Containers: 1}
+		if multi {
+			ps.Kind, ps.Devices = "multi", 2
+		}
+		p := sim.BuildPod(ps)
+		p.Spec.NodeName = c.Req.Node
+		p.Status.Phase = v1.PodRunning
+		if multi {
+			p.Labels[constants.MultiGpuGroupLabelPrefix+group] = group
+		} else {
+			p.Labels[constants.GPUGroup] = group
+		}
+		return p
+	}
+	if c.Pod.Sharing() {
+		for i, g := range c.Req.Groups {
+			if i < len(c.Pre.GroupExists) && c.Pre.GroupExists[i] {
+				objs = append(objs, sim.BuildReservationPod(c.Req.Node, g, usedIdx), mkConsumer("consumer-"+g, g, i%2 == 1))
+				usedIdx += 2
 			}
 		}
-		objs := []client.Object{sim.BuildNode("n0"), sim.BuildPod(ps), sim.BuildRequest(ps, rs)}
-		s := sim.New(objs, []runtime.Object{sim.BuildClaim(ps, 0)})
-		p := s.NewProc()
-		s.Begin(0, nil)
-		res, err, pn := p.Reconcile("ns", "p")
-		fmt.Println(kind, res, err, pn)
-		for _, c := range s.TakeCalls() {
-			fmt.Println("  ", c)
+		switch c.Pre.Labelled {
+		case "same":
+			for _, g := range c.Req.Groups {
+				if c.Pod.Multi() {
+					pod.Labels[constants.MultiGpuGroupLabelPrefix+g] = g
+				} else {
+					pod.Labels[constants.GPUGroup] = g
+				}
+			}
+		case "stale":
+			g := "gstale"
+			if c.Pod.Multi() {
+				pod.Labels[constants.MultiGpuGroupLabelPrefix+g] = g
+			} else {
+				pod.Labels[constants.GPUGroup] = g
+			}
+			objs = append(objs, sim.BuildReservationPod(c.Req.Node, g, usedIdx))
+			usedIdx += 2
 		}
-		sn := s.Snapshot()
-		fmt.Printf("  %+v\n", *sn)
+		mkCM := func(name string, owner types.UID, data map[string]string) *v1.ConfigMap {
+			return &v1.ConfigMap{TypeMeta: metav1.TypeMeta{Kind: "ConfigMap", APIVersion: "v1"},
+				ObjectMeta: metav1.ObjectMeta{Name: name, Namespace: c.Pod.NS,
+					OwnerReferences: []metav1.OwnerReference{{APIVersion: "v1", Kind: "Pod", Name: c.Pod.Name, UID: owner}}},
+				Data: data}
+		}
+		switch c.Pre.ConfigMaps {
+		case "both":
+			objs = append(objs, mkCM(c.Pod.CapabilitiesCM(), pod.UID, map[string]string{}), mkCM(c.Pod.EnvCM(), pod.UID, map[string]string{}))
+		case "capOnly":
+			objs = append(objs, mkCM(c.Pod.CapabilitiesCM(), pod.UID, nil))
+		case "foreign":
+			objs = append(objs, mkCM(c.Pod.CapabilitiesCM(), "uid-previous-incarnation", map[string]string{"NVIDIA_VISIBLE_DEVICES": "7", "GPU_PORTION": "0.9"}),
+				mkCM(c.Pod.EnvCM(), "uid-previous-incarnation", map[string]string{"NVIDIA_VISIBLE_DEVICES": "7"}))
+		case "stale":
+			objs = append(objs, mkCM(c.Pod.CapabilitiesCM(), pod.UID, map[string]string{"NVIDIA_VISIBLE_DEVICES": "7", "GPU_PORTION": "0.9", "RUNAI_NUM_OF_GPUS": "0.9"}),
+				mkCM(c.Pod.EnvCM(), pod.UID, map[string]string{"NVIDIA_VISIBLE_DEVICES": "7"}))
+		}
 	}
+	for i := 0; i < c.Pre.OtherGroups; i++ {
+		g := otherGroup(i)
+		objs = append(objs, sim.BuildReservationPod(c.Req.Node, g, usedIdx), mkConsumer("consumer-"+g, g, i%2 == 1))
+		usedIdx += 2
+	}
+	if c.Pre.Orphan {
+		objs = append(objs, sim.BuildReservationPod(c.Req.Node, "gorphan", 1))
+	}
+	objs = append(objs, pod, sim.BuildRequest(c.Pod, c.Req))
+	for i := 0; i < c.Pod.Claims; i++ {
+		cl := sim.BuildClaim(c.Pod, i)
+		if c.Pre.ClaimShared {
+			cl.Status.Allocation = &resourceapi.AllocationResult{}
+			cl.Status.ReservedFor = []resourceapi.ResourceClaimConsumerReference{{Resource: "pods", Name: "someone-else", UID: "uid-someone-else"}}
+		}
+		kube = append(kube, cl)
+	}
+	return objs, kube
+}
+
+// ---------------------------------------------------------------------------------------------
+// generator
+
+func genCase(t *rapid.T) *Case {
+	c := &Case{}
+	ps := sim.PodShape{Name: "p", NS: "ns"}
+	ps.Kind = []string{"whole", "cpu", "fraction", "memory", "multi", "multimem"}[sim.Weighted(t, "kind", 12, 4, 32, 10, 32, 10)]
+	ps.Containers = 1 + sim.Weighted(t, "containers", 5, 3, 2)
+	ps.Inits = sim.Weighted(t, "inits", 6, 3, 1)
+	ps.Owner = sim.Chance(t, 50, "owner")
+	switch ps.Kind {
+	case "whole":
+		ps.WholeGPUs = 1 + sim.Uniform(t, 2, "wholeGPUs")
+	case "fraction", "multi":
+		ps.Fraction = sim.Pick(t, "fraction", "0.5", "0.25", "0.1", "0.75")
+	case "memory", "multimem":
+		ps.MemoryMiB = sim.Pick(t, "memory", 2000, 4096, 500)
+	}
+	if ps.Multi() {
+		ps.Devices = 2 + sim.Weighted(t, "devices", 7, 3)
+	}
+	if ps.Sharing() && sim.Chance(t, 40, "namedCtr") {
+		names := []string{}
+		for i := 0; i < ps.Containers; i++ {
+			names = append(names, fmt.Sprintf("c%d", i))
+		}
+		for i := 0; i < ps.Inits; i++ {
+			names = append(names, fmt.Sprintf("i%d", i))
+		}
+		ps.FracCtr = names[sim.Uniform(t, len(names), "fracCtr")]
+	}
+	if ps.Sharing() {
+		ps.LegacyEnv = sim.Chance(t, 10, "legacyEnv")
+	}
+	ps.Claims = sim.Weighted(t, "claims", 70, 20, 10)
+	if ps.Claims > 0 {
+		ps.ClaimTmpl = sim.Chance(t, 30, "claimTmpl")
+		c.Pre.ClaimShared = sim.Chance(t, 30, "claimShared")
+	}
+	c.Pod = ps
+
+	rs := sim.ReqShape{Node: node0}
+	if ps.Sharing() {
+		n := 1
+		if ps.Multi() {
+			n = ps.Devices
+		}
+		pool := []string{"ga", "gb", "gc", "gd"}
+		off := sim.Uniform(t, 4, "groupOff")
+		for i := 0; i < n; i++ {
+			rs.Groups = append(rs.Groups, pool[(off+i)%4])
+		}
+		rs.Portion = ps.Fraction
+		if rs.Portion == "" {
+			rs.Portion = sim.Pick(t, "memPortion", "0.125", "0.25", "0.05")
+		}
+	}
+	switch sim.Weighted(t, "backoff", 4, 1, 2, 2, 1) {
+	case 1:
+		rs.Backoff = ptr(1)
+	case 2:
+		rs.Backoff = ptr(2)
+	case 3:
+		rs.Backoff = ptr(3)
+	case 4:
+		rs.Backoff = ptr(5)
+	}
+	switch sim.Weighted(t, "phase", 72, 20, 8) {
+	case 0:
+		rs.Phase = "Pending"
+	case 1:
+		rs.Phase = "Failed"
+		rs.Attempts = 1
+		if rs.Backoff != nil && *rs.Backoff > 1 {
+			rs.Attempts = 1 + int32(sim.Uniform(t, int(*rs.Backoff)-1, "attempts"))
+		}
+	case 2:
+		rs.Phase = "Succeeded"
+	}
+	c.Req = rs
+
+	if ps.Sharing() {
+		for range rs.Groups {
+			c.Pre.GroupExists = append(c.Pre.GroupExists, sim.Chance(t, 45, "groupExists"))
+		}
+		c.Pre.ConfigMaps = []string{"", "both", "capOnly", "foreign", "stale"}[sim.Weighted(t, "cms", 50, 20, 8, 10, 12)]
+		c.Pre.Labelled = []string{"", "same", "stale"}[sim.Weighted(t, "labelled", 65, 25, 10)]
+		if c.Pre.Labelled == "stale" && ps.Multi() {
+			// labels of an abandoned request with other groups are not an intermediate state of this request
+			// (see NOTES.md, "not covered"); for single-fraction pods the label is simply overwritten
+			c.Pre.Labelled = "same"
+		}
+	}
+	c.Pre.Bound = []string{"", "this", "other"}[sim.Weighted(t, "bound", 86, 7, 7)]
+	c.Pre.OtherGroups = sim.Weighted(t, "otherGroups", 5, 3, 2)
+	c.Pre.Orphan = sim.Chance(t, 25, "orphan")
+	c.CDI = sim.Chance(t, 20, "cdi")
+	c.IndexPolicy = sim.Pick(t, "indexPolicy", "lowest", "rotating")
+	return c
+}
+
+func ptr(v int32) *int32 { return &v }
+
+// ---------------------------------------------------------------------------------------------
+// execution
+
+// Trace is what one execution of a case produced (saved next to a violating case).
+type Trace struct {
+	Faulted  []string      `json:"faultedReconcile"`
+	Recovery []string      `json:"recovery,omitempty"`
+	Retry    []string      `json:"retry,omitempty"`
+	Initial  *sim.Snapshot `json:"initial,omitempty"`
+	After    *sim.Snapshot `json:"afterFaultedReconcile,omitempty"`
+	Synced   *sim.Snapshot `json:"afterSync,omitempty"`
+	Final    *sim.Snapshot `json:"final,omitempty"`
+	Err      string        `json:"reconcileError,omitempty"`
+	Bindings []sim.BindRec `json:"bindings,omitempty"`
+}
+
+type outcome struct {
+	sig, msg   string
+	excluded   string // trigger of a written-up genuine defect: the execution is not judged (NOTES.md)
+	calls      []sim.Call // faulted reconcile
+	crashed    bool
+	nontrivial bool
+	classes    []string
+	trace      *Trace
+}
+
+func strs(cs []sim.Call) []string {
+	out := make([]string, len(cs))
+	for i, c := range cs {
+		out[i] = c.String()
+	}
+	return out
+}
+
+func podKey(c *Case) string { return c.Pod.NS + "/" + c.Pod.Name }
+
+// bindable: the initial state is one from which a reconcile is supposed to bind the pod.
+func (c *Case) bindable() bool { return c.Pre.Bound == "" && c.Req.Phase != "Succeeded" }
+
+func execute(c *Case) *outcome {
+	o := &outcome{trace: &Trace{}}
+	objs, kube := c.world()
+	s := sim.New(objs, kube)
+	s.CDI, s.IndexPolicy = c.CDI, c.IndexPolicy
+	proc := s.NewProc()
+	s0 := s.Snapshot()
+	o.trace.Initial = s0
+	fail := func(sig, format string, a ...any) *outcome {
+		if o.sig == "" {
+			o.sig, o.msg = sig, fmt.Sprintf(format, a...)
+		}
+		return o
+	}
+
+	// 1. the (faulted) reconcile
+	s.Begin(0, c.Faults)
+	_, err, pn := proc.Reconcile(c.Pod.NS, c.Pod.Name)
+	o.calls = s.TakeCalls()
+	o.trace.Faulted = strs(o.calls)
+	if err != nil {
+		o.trace.Err = err.Error()
+	}
+	o.crashed = s.Crashed()
+	s1 := s.Snapshot()
+	o.trace.After = s1
+	defer func() { o.trace.Bindings = s.Bindings() }()
+	if pn != "" {
+		return fail("panic", "reconcile panicked: %s", pn)
+	}
+	fi := analyse(c, o.calls)
+	o.nontrivial = fi.partialEffect
+	if o.excluded = knownTrigger(c, s0, o.calls, err != nil, o.crashed); o.excluded != "" {
+		return o
+	}
+
+	// never: bound twice / to another node / any effect on a finished request
+	if sig, msg := checkNever(c, s, s0, s1, o.calls); sig != "" {
+		return fail(sig, "%s", msg)
+	}
+	if !c.bindable() {
+		return o
+	}
+
+	// 2. recovery: restart after a crash, and the sync that follows
+	if o.crashed {
+		s.Restart()
+		proc = s.NewProc()
+	}
+	s.Begin(0, nil)
+	syncErr := proc.RRS.Sync(context.Background())
+	rec := s.TakeCalls()
+	o.trace.Recovery = strs(rec)
+	if syncErr != nil {
+		return fail("sync-fails", "fault-free Sync() after the faulted reconcile fails: %v", syncErr)
+	}
+	s2 := s.Snapshot()
+	o.trace.Synced = s2
+
+	pod1 := s1.Pods[podKey(c)]
+	if pod1.Node != "" {
+		// (A) must hold already: bound with side objects in place (status may lag if its patch was the failed call)
+		if sig, msg := checkBoundState(c, s, s0, s1, false); sig != "" {
+			return fail("A-"+sig, "after the faulted reconcile the pod is bound but %s", msg)
+		}
+		if sig, msg := checkBoundState(c, s, s0, s2, false); sig != "" {
+			return fail("A-after-sync-"+sig, "after the faulted reconcile and a Sync() the pod is bound but %s", msg)
+		}
+		req := s1.Requests[podKey(c)]
+		if !o.crashed && !fi.statusPatchFaulted && req.Phase != "Succeeded" {
+			return fail("bound-not-succeeded", "pod is bound but the stored request is %q (reason %q) although the status update was not the failed call", req.Phase, req.Reason)
+		}
+	} else {
+		// (B) unbound
+		if sig, msg := checkUnboundState(c, s0, s1, s2, o, fi); sig != "" {
+			return fail("B-"+sig, "%s", msg)
+		}
+	}
+	if sig, msg := checkBystanders(c, s0, s2); sig != "" {
+		return fail(sig, "%s", msg)
+	}
+
+	// 3. a later fault-free attempt succeeds
+	s.Begin(0, nil)
+	_, err, pn = proc.Reconcile(c.Pod.NS, c.Pod.Name)
+	retry := s.TakeCalls()
+	o.trace.Retry = strs(retry)
+	s3 := s.Snapshot()
+	o.trace.Final = s3
+	if pn != "" {
+		return fail("retry-panic", "fault-free retry panicked: %s", pn)
+	}
+	if err != nil {
+		return fail("retry-fails", "fault-free reconcile from the reached state fails: %v", err)
+	}
+	if sig, msg := checkBoundState(c, s, s0, s3, true); sig != "" {
+		return fail("retry-"+sig, "after a fault-free retry from the reached state %s", msg)
+	}
+	if sig, msg := checkBystanders(c, s0, s3); sig != "" {
+		return fail("retry-"+sig, "%s", msg)
+	}
+	if sig, msg := checkBindings(c, s); sig != "" {
+		return fail(sig, "%s", msg)
+	}
+	return o
+}
+
+// faultInfo is what the trace of the faulted reconcile says about where the faults hit.
+type faultInfo struct {
+	partialEffect      bool // a mutating call had succeeded before the first fault hit, and the fault hit before the last mutating call was through
+	firstPhase         string
+	reqGetFaulted      bool // the reconciler could not read the request
+	statusPatchFaulted bool
+	rollbackFaults     []sim.Call // injected failures inside Rollback
+	rollbackRan        bool
+	bindFaultSeen      bool // an injected failure (or mute) hit before / inside Bind
+	injected           int
+}
+
+func analyse(c *Case, calls []sim.Call) faultInfo {
+	fi := faultInfo{}
+	mutBefore := false
+	first := true
+	for _, cl := range calls {
+		if cl.Phase == "rollback" {
+			fi.rollbackRan = true
+		}
+		if cl.Injected != "" {
+			fi.injected++
+			if first {
+				first = false
+				fi.firstPhase = cl.Phase
+				fi.partialEffect = mutBefore && !(cl.Verb == "sub-patch" && cl.Kind == "Pod") && !(cl.Verb == "sub-patch" && cl.Kind == "BindRequest")
+			}
+			if cl.Verb == "get" && cl.Kind == "BindRequest" {
+				fi.reqGetFaulted = true
+			}
+			if cl.Verb == "sub-patch" && cl.Kind == "BindRequest" && cl.Sub == "status" {
+				fi.statusPatchFaulted = true
+			}
+			if cl.Phase == "rollback" {
+				fi.rollbackFaults = append(fi.rollbackFaults, cl)
+			} else if !(cl.Verb == "sub-patch") {
+				fi.bindFaultSeen = true
+			}
+		} else if cl.Mut && cl.Err == "" {
+			mutBefore = true
+		}
+	}
+	return fi
+}
+
+// knownTrigger recognises, from the inputs and the faulted reconcile's call log alone (never from a
+// verdict), the triggers of the genuine defects written up in NOTES.md. Such executions are dropped
+// from the search (and counted) so that it continues behind them.
+//
+//	multi-label-partial: a multi-fraction pod, an injected error at the label patch of its 2nd or
+//	   later GPU group whose label is not yet stored (finding-multi-fraction-label-left.json);
+//	dra-claim-left: a pod with resource claims whose attempt fails (without a crash) after a claim's
+//	   status was updated (finding-dra-claim-left.json).
+func knownTrigger(c *Case, s0 *sim.Snapshot, calls []sim.Call, failed, crashed bool) string {
+	if c.Pod.Multi() {
+		ord := 0
+		for _, cl := range calls {
+			if cl.Phase != "bind" || cl.Verb != "patch" || cl.Kind != "Pod" || cl.Key != podKey(c) {
+				continue
+			}
+			ord++
+			if ord > len(c.Req.Groups) {
+				break // the received-type annotation patch
+			}
+			if cl.Injected == "error" && ord >= 2 && !contains(s0.Pods[podKey(c)].Groups, c.Req.Groups[ord-1]) {
+				return "multi-label-partial"
+			}
+		}
+	}
+	if c.Pod.Claims > 0 && failed && !crashed {
+		for _, cl := range calls {
+			if cl.Verb == "kube-update" && cl.Kind == "resourceclaims" && cl.Err == "" {
+				return "dra-claim-left"
+			}
+		}
+	}
+	return ""
+}
+
+// checkNever: clauses that hold whatever happened.
+func checkNever(c *Case, s *sim.Sim, s0, s1 *sim.Snapshot, calls []sim.Call) (string, string) {
+	p0, p1 := s0.Pods[podKey(c)], s1.Pods[podKey(c)]
+	if p0.Node != "" && p1.Node != p0.Node {
+		return "rebound", fmt.Sprintf("pod was bound to %q and is now on %q", p0.Node, p1.Node)
+	}
+	if p1.Node != "" && p0.Node == "" && p1.Node != c.Req.Node {
+		return "wrong-node", fmt.Sprintf("pod bound to %q, request names %q", p1.Node, c.Req.Node)
+	}
+	for _, b := range s.Bindings() {
+		if b.Pod != podKey(c) {
+			return "foreign-binding", fmt.Sprintf("binding of another pod: %+v", b)
+		}
+		if b.Before != "" {
+			return "second-binding", fmt.Sprintf("a pods/binding was sent for a pod that is already assigned to %q: %+v", b.Before, b)
+		}
+		if b.Node != c.Req.Node {
+			return "wrong-node", fmt.Sprintf("pods/binding names node %q, request names %q", b.Node, c.Req.Node)
+		}
+	}
+	if c.Req.Phase == "Succeeded" {
+		for _, cl := range calls {
+			if cl.Mut {
+				return "succeeded-not-noop", fmt.Sprintf("request already Succeeded but the reconcile made a mutating call: %s", cl)
+			}
+		}
+	}
+	if c.Pre.Bound != "" && c.Req.Phase != "Succeeded" {
+		for _, cl := range calls {
+			if cl.Mut && !(cl.Verb == "sub-patch" && cl.Sub == "status") {
+				return "bound-not-noop", fmt.Sprintf("pod already bound but the reconcile made a mutating call other than a status update: %s", cl)
+			}
+		}
+	}
+	if !c.bindable() {
+		// nothing but statuses may differ
+		a, _ := json.Marshal(stripStatus(s0))
+		b, _ := json.Marshal(stripStatus(s1))
+		if string(a) != string(b) {
+			return "noop-changed-state", fmt.Sprintf("no-op reconcile changed the store: %s -> %s", a, b)
+		}
+	}
+	return "", ""
+}
+
+func stripStatus(sn *sim.Snapshot) *sim.Snapshot {
+	cp := *sn
+	cp.Requests = nil
+	return &cp
+}
+
+// checkBindings: across the whole history exactly one successful binding, to the requested node.
+func checkBindings(c *Case, s *sim.Sim) (string, string) {
+	ok := 0
+	for _, b := range s.Bindings() {
+		if b.OK {
+			ok++
+		}
+	}
+	if ok != 1 {
+		return "binding-count", fmt.Sprintf("%d successful pods/binding calls in the history, want exactly 1: %+v", ok, s.Bindings())
+	}
+	return "", ""
+}
+
+// effectiveEnv is a kubelet model: what the container would see from its env / envFrom ConfigMaps.
+func effectiveEnv(pod *v1.Pod, ctr *v1.Container, sn *sim.Snapshot) (map[string]string, []string) {
+	env := map[string]string{}
+	var missing []string
+	for _, ef := range ctr.EnvFrom {
+		if ef.ConfigMapRef == nil {
+			continue
+		}
+		d, ok := sn.ConfigMaps[pod.Namespace+"/"+ef.ConfigMapRef.Name]
+		if !ok {
+			if ef.ConfigMapRef.Optional == nil || !*ef.ConfigMapRef.Optional {
+				missing = append(missing, ef.ConfigMapRef.Name)
+			}
+			continue
+		}
+		for k, v := range d {
+			env[k] = v
+		}
+	}
+	for _, e := range ctr.Env {
+		if e.ValueFrom == nil {
+			env[e.Name] = e.Value
+			continue
+		}
+		if r := e.ValueFrom.ConfigMapKeyRef; r != nil {
+			d, ok := sn.ConfigMaps[pod.Namespace+"/"+r.Name]
+			if !ok {
+				if r.Optional == nil || !*r.Optional {
+					missing = append(missing, r.Name)
+				}
+				continue
+			}
+			if v, ok := d[r.Key]; ok {
+				env[e.Name] = v
+			} else if r.Optional == nil || !*r.Optional {
+				// kubelet: a missing key of a non-optional reference is a container start error
+				if e.Name == constants.NvidiaVisibleDevices || e.Name == "GPU_PORTION" {
+					missing = append(missing, r.Name+"["+r.Key+"]")
+				}
+			}
+		}
+	}
+	return env, missing
+}
+
+func fractionContainer(c *Case, pod *v1.Pod) *v1.Container {
+	name := c.Pod.FracCtr
+	if name == "" {
+		return &pod.Spec.Containers[0]
+	}
+	for i := range pod.Spec.InitContainers {
+		if pod.Spec.InitContainers[i].Name == name {
+			return &pod.Spec.InitContainers[i]
+		}
+	}
+	for i := range pod.Spec.Containers {
+		if pod.Spec.Containers[i].Name == name {
+			return &pod.Spec.Containers[i]
+		}
+	}
+	return nil
+}
+
+// checkBoundState is clause (A): the pod is bound to exactly the requested node with its side
+// objects in place. final additionally demands the request to be Succeeded.
+func checkBoundState(c *Case, s *sim.Sim, s0, sn *sim.Snapshot, final bool) (string, string) {
+	p := sn.Pods[podKey(c)]
+	if p.Node != c.Req.Node {
+		return "not-bound", fmt.Sprintf("the pod is on node %q, want %q", p.Node, c.Req.Node)
+	}
+	wantType := "Regular"
+	if c.Pod.Sharing() {
+		wantType = "Fraction"
+	}
+	if got := p.Ann[constants.ReceivedResourceType]; got != wantType {
+		return "received-type", fmt.Sprintf("annotation %s is %q, want %q", constants.ReceivedResourceType, got, wantType)
+	}
+	if final {
+		if r := sn.Requests[podKey(c)]; r.Phase != "Succeeded" {
+			return "request-not-succeeded", fmt.Sprintf("the request is %q (%s), want Succeeded", r.Phase, r.Reason)
+		}
+	}
+	for i := 0; i < c.Pod.Claims; i++ {
+		cv, ok := sn.Claims[c.Pod.NS+"/"+c.Pod.ClaimName(i)]
+		n := 0
+		for _, u := range cv.ReservedFor {
+			if u == p.UID {
+				n++
+			}
+		}
+		if !ok || n != 1 || !cv.Allocated {
+			return "claim", fmt.Sprintf("claim %s: reservedFor=%v allocated=%v, want the pod exactly once and an allocation", c.Pod.ClaimName(i), cv.ReservedFor, cv.Allocated)
+		}
+	}
+	if !c.Pod.Sharing() {
+		if len(p.Groups) != 0 {
+			return "labels", fmt.Sprintf("whole-GPU / CPU pod carries GPU groups %v", p.Groups)
+		}
+		return "", ""
+	}
+	want := append([]string(nil), c.Req.Groups...)
+	sort.Strings(want)
+	if strings.Join(p.Groups, ",") != strings.Join(want, ",") || len(p.BadLabels) > 0 {
+		return "labels", fmt.Sprintf("the pod carries GPU groups %v (single=%q multi=%v bad=%v), request selected %v", p.Groups, p.Single, p.Multi, p.BadLabels, c.Req.Groups)
+	}
+	if c.Pod.Multi() && p.Single != "" || !c.Pod.Multi() && len(p.Multi) > 0 {
+		return "labels-form", fmt.Sprintf("wrong label form: single=%q multi=%v for kind %s", p.Single, p.Multi, c.Pod.Kind)
+	}
+	var idx []string
+	for _, g := range c.Req.Groups {
+		rs := sn.ReservationsOf(g)
+		if len(rs) != 1 {
+			return "reservation", fmt.Sprintf("group %s has %d reservation pods, want 1: %+v", g, len(rs), rs)
+		}
+		if rs[0].Node != c.Req.Node || rs[0].Index == "" {
+			return "reservation", fmt.Sprintf("reservation pod of group %s: %+v, want node %s and a GPU index", g, rs[0], c.Req.Node)
+		}
+		if old := s0.ReservationsOf(g); len(old) == 1 && len(s0.LiveCarriersExcept(g, podKey(c))) > 0 && (old[0].Name != rs[0].Name || old[0].Index != rs[0].Index) {
+			return "reservation-replaced", fmt.Sprintf("group %s had reservation %+v with running consumers, now %+v", g, old[0], rs[0])
+		}
+		v := rs[0].Index
+		if c.CDI {
+			v = "k8s.device-plugin.nvidia.com/gpu=" + v
+		}
+		idx = append(idx, v)
+	}
+	stored := &v1.Pod{}
+	if err := s.Base.Get(context.Background(), client.ObjectKey{Namespace: c.Pod.NS, Name: c.Pod.Name}, stored); err != nil {
+		return "pod-gone", err.Error()
+	}
+	ctr := fractionContainer(c, stored)
+	if ctr == nil {
+		return "container", "fraction container not found"
+	}
+	env, missing := effectiveEnv(stored, ctr, sn)
+	if len(missing) > 0 {
+		return "configmap-missing", fmt.Sprintf("the fraction container references ConfigMaps that do not exist / lack the key: %v", missing)
+	}
+	if got, want := env[constants.NvidiaVisibleDevices], strings.Join(idx, ","); got != want {
+		return "visible-devices", fmt.Sprintf("the fraction container would see NVIDIA_VISIBLE_DEVICES=%q, the reservation pods of %v hold %q", got, c.Req.Groups, want)
+	}
+	if got := env["GPU_PORTION"]; got != c.Req.Portion {
+		return "portion", fmt.Sprintf("the fraction container would see GPU_PORTION=%q, request says %q", got, c.Req.Portion)
+	}
+	return "", ""
+}
+
+// checkUnboundState is clause (B): unbound, reported Failed, side effects removed / removable.
+func checkUnboundState(c *Case, s0, s1, s2 *sim.Snapshot, o *outcome, fi faultInfo) (string, string) {
+	key := podKey(c)
+	req := s1.Requests[key]
+	if fi.injected == 0 {
+		return "fails-without-fault", fmt.Sprintf("fault-free reconcile leaves the pod unbound (error %q, request %s: %s)", o.trace.Err, req.Phase, req.Reason)
+	}
+	if !o.crashed {
+		switch {
+		case !req.Exists:
+			return "request-gone", "the request disappeared"
+		case fi.reqGetFaulted || fi.statusPatchFaulted:
+			// the failure cannot be reported through a call that itself failed / on a request that could not be read
+		case req.Phase != "Failed" || req.Reason == "":
+			return "not-reported-failed", fmt.Sprintf("pod unbound after a failed attempt (error %q) but the stored request is phase=%q reason=%q", o.trace.Err, req.Phase, req.Reason)
+		}
+	} else if req.Phase == "Succeeded" {
+		return "succeeded-unbound", "the request is Succeeded but the pod is unbound"
+	}
+	p2 := s2.Pods[key]
+	p0 := s0.Pods[key]
+	// what may legitimately remain, by the kind of call a fault inside Rollback hit
+	labelsMayStay, cmMayStay := o.crashed, map[string]bool{}
+	for _, f := range fi.rollbackFaults {
+		switch {
+		case f.Kind == "Pod" && f.Verb == "patch":
+			labelsMayStay = true
+		case f.Kind == "ConfigMap":
+			cmMayStay[f.Key] = true
+		}
+	}
+	if !labelsMayStay {
+		for _, g := range p2.Groups {
+			if !contains(p0.Groups, g) {
+				return "label-left", fmt.Sprintf("the failed attempt's GPU-group label %q is still on the unbound pod after rollback and Sync() (labels now %v, before %v)", g, p2.Groups, p0.Groups)
+			}
+		}
+	}
+	if !o.crashed {
+		for _, name := range []string{c.Pod.NS + "/" + c.Pod.CapabilitiesCM(), c.Pod.NS + "/" + c.Pod.EnvCM()} {
+			if _, had := s0.ConfigMaps[name]; had || cmMayStay[name] || !c.Pod.Sharing() {
+				continue
+			}
+			if _, has := s2.ConfigMaps[name]; has {
+				return "configmap-left", fmt.Sprintf("ConfigMap %s created by the failed attempt still exists after rollback and Sync()", name)
+			}
+		}
+	}
+	// reservation pods: after the sync none may be without a live carrier, and none created by the attempt
+	// may remain unless the pod still (legitimately) carries its group
+	for _, r := range s2.Reservations {
+		if len(s2.LiveCarriers(r.Group)) == 0 {
+			return "orphan-reservation", fmt.Sprintf("reservation pod %+v has no live consumer after the failed attempt and a Sync()", r)
+		}
+	}
+	for i := 0; i < c.Pod.Claims && !o.crashed; i++ {
+		cv := s2.Claims[c.Pod.NS+"/"+c.Pod.ClaimName(i)]
+		if contains(cv.ReservedFor, p2.UID) {
+			return "claim-left", fmt.Sprintf("claim %s is still reserved for the unbound pod after the failed attempt (reservedFor=%v allocated=%v)", c.Pod.ClaimName(i), cv.ReservedFor, cv.Allocated)
+		}
+	}
+	return "", ""
+}
+
+// checkBystanders: groups with live consumers other than the pod keep their reservation pod and
+// index, their consumers keep their labels and are not deleted.
+func checkBystanders(c *Case, s0, sn *sim.Snapshot) (string, string) {
+	for _, g := range s0.AllGroups() {
+		carriers := s0.LiveCarriersExcept(g, podKey(c))
+		if len(carriers) == 0 {
+			continue
+		}
+		old, now := s0.ReservationsOf(g), sn.ReservationsOf(g)
+		if len(old) != 1 {
+			continue
+		}
+		if len(now) != 1 || now[0].Name != old[0].Name || now[0].Index != old[0].Index {
+			return "bystander-reservation", fmt.Sprintf("group %s has running consumers %v; its reservation was %+v and is now %+v", g, carriers, old, now)
+		}
+		for _, k := range carriers {
+			q, ok := sn.Pods[k]
+			if !ok || !contains(q.Groups, g) {
+				return "bystander-pod", fmt.Sprintf("consumer %s of group %s was deleted or lost its label", k, g)
+			}
+		}
+	}
+	return "", ""
+}
+
+func contains(xs []string, x string) bool {
+	for _, y := range xs {
+		if y == x {
+			return true
+		}
+	}
+	return false
+}
+
+// ---------------------------------------------------------------------------------------------
+// the property
+
+func classesOf(c *Case, o *outcome, mode string) []string {
+	cl := []string{"kind:" + c.Pod.Kind, "mode:" + mode}
+	add := func(b bool, s string) {
+		if b {
+			cl = append(cl, s)
+		}
+	}
+	add(c.Pod.Claims > 0, "dra")
+	add(c.Pod.FracCtr != "", "named-container")
+	add(strings.HasPrefix(c.Pod.FracCtr, "i"), "init-fraction-container")
+	add(c.Pod.LegacyEnv, "legacy-env")
+	add(c.Pre.Bound != "", "pre:bound-"+c.Pre.Bound)
+	add(c.Req.Phase != "Pending", "pre:req-"+c.Req.Phase)
+	add(c.Pre.Labelled != "", "pre:labelled-"+c.Pre.Labelled)
+	add(c.Pre.ConfigMaps != "", "pre:cm-"+c.Pre.ConfigMaps)
+	add(c.Req.Backoff != nil, "backoff-limit")
+	for _, e := range c.Pre.GroupExists {
+		if e {
+			add(true, "pre:group-exists")
+			break
+		}
+	}
+	add(o.crashed, "crashed")
+	add(o.nontrivial, "partial-effect")
+	if o.trace != nil && o.trace.After != nil {
+		p := o.trace.After.Pods[podKey(c)]
+		if c.bindable() {
+			add(p.Node != "", "end:bound")
+			add(p.Node == "", "end:unbound")
+		} else {
+			add(true, "end:noop")
+		}
+	}
+	fi := analyse(c, o.calls)
+	add(len(fi.rollbackFaults) > 0, "fault-in-rollback")
+	add(fi.rollbackRan, "rollback-ran")
+	return cl
+}
+
+func report(t *rapid.T, c *Case, o *outcome) {
+	path := kit.Violation(prop, o.sig, o.msg, c, o.trace)
+	t.Fatalf("VIOLATION %s: %s (%s)", o.sig, o.msg, path)
+}
+
+func modeOf(fs []sim.Fault) string {
+	if len(fs) == 0 {
+		return "fault-free"
+	}
+	parts := []string{}
+	for _, f := range fs {
+		parts = append(parts, f.Mode)
+	}
+	return strings.Join(parts, "+")
+}
+
+func runOne(t *rapid.T, c *Case, faults []sim.Fault) *outcome {
+	cc := *c
+	cc.Faults = faults
+	o := execute(&cc)
+	if o.excluded != "" {
+		kit.Note("excluded:"+o.excluded, 1)
+		return o
+	}
+	kit.Eval(kit.HexKey(&cc), o.nontrivial, classesOf(&cc, o, modeOf(faults))...)
+	if o.sig != "" {
+		report(t, &cc, o)
+	}
+	if o.nontrivial && len(faults) > 0 && kit.WantSample() {
+		kit.Sample(map[string]any{"case": &cc, "faultedReconcile": o.trace.Faulted, "recovery": o.trace.Recovery})
+	}
+	return o
+}
+
+func TestCheckAllOrNothing(t *testing.T) {
+	kit.Run(t, kit.Budget{Quick: 160, Thorough: 3000}, func(t *rapid.T) {
+		c := genCase(t)
+		base := runOne(t, c, nil)
+		n := len(base.calls)
+		errKinds := []string{"internal", "conflict", "timeout", "unavailable"}
+		type single struct {
+			f sim.Fault
+			l int
+		}
+		var firsts []single
+		for k := 1; k <= n; k++ {
+			ek := errKinds[sim.Uniform(t, len(errKinds), "errKind")]
+			o := runOne(t, c, []sim.Fault{{K: k, Mode: "error", Err: ek}})
+			firsts = append(firsts, single{sim.Fault{K: k, Mode: "error", Err: ek}, len(o.calls)})
+			runOne(t, c, []sim.Fault{{K: k, Mode: "crash"}})
+			if base.calls[k-1].Verb == "watch" {
+				for _, mk := range []string{"closed", "errorevent", "timeout"} {
+					if mk == "timeout" && !sim.Chance(t, 25, "muteTimeout") {
+						continue
+					}
+					o := runOne(t, c, []sim.Fault{{K: k, Mode: "mute", Err: mk}})
+					firsts = append(firsts, single{sim.Fault{K: k, Mode: "mute", Err: mk}, len(o.calls)})
+				}
+			}
+		}
+		if !c.bindable() {
+			return
+		}
+		// pairs: a second fault at any later call of the run the first fault produced
+		type pair struct{ a, b sim.Fault }
+		var pairs []pair
+		for _, f := range firsts {
+			for j := f.f.K + 1; j <= f.l; j++ {
+				pairs = append(pairs, pair{f.f, sim.Fault{K: j, Mode: "error", Err: "internal"}}, pair{f.f, sim.Fault{K: j, Mode: "crash"}})
+			}
+		}
+		if len(pairs) > maxPairs {
+			kit.Note("pair-sets-sampled", 1)
+			kit.Note("pairs-not-executed", int64(len(pairs)-maxPairs))
+			// fair sample without replacement (partial Fisher-Yates on rapid draws)
+			for i := 0; i < maxPairs; i++ {
+				j := i + sim.Uniform(t, len(pairs)-i, "pairPick")
+				pairs[i], pairs[j] = pairs[j], pairs[i]
+			}
+			pairs = pairs[:maxPairs]
+		} else {
+			kit.Note("pair-sets-exhaustive", 1)
+		}
+		for _, p := range pairs {
+			runOne(t, c, []sim.Fault{p.a, p.b})
+		}
+	})
+}
+
+func TestReplay(t *testing.T) {
+	kit.ReplayMain(t, func(rf *kit.ReplayFile) kit.ReplayResult {
+		var c Case
+		if err := json.Unmarshal(rf.Case, &c); err != nil {
+			t.Fatalf("bad case: %v", err)
+		}
+		res := kit.ReplayResult{}
+		for i := 0; i < 10; i++ {
+			o := execute(&c)
+			res.Runs++
+			if o.sig != "" {
+				res.Bad++
+				if !res.Violated {
+					res.Violated, res.Signature, res.Message = true, o.sig, o.msg
+				}
+			}
+		}
+		return res
+	})
 }
